@@ -4,7 +4,7 @@
    le_len/le_encode/le_decode (low entropy body codec) are universally quantified; what is assumed
    of them is written as premises of each theorem. *)
 From Coq Require Import List NArith ZArith Bool.
-From M Require Import gen.Consts model.TcpStream proofs.TcpStreamProofs.
+From M Require Import gen.Consts model.TcpStream model.TcpStreamWire proofs.TcpStreamProofs proofs.TcpStreamInst proofs.TcpStreamExamples.
 Import ListNotations.
 Open Scope N_scope.
 
@@ -27,13 +27,15 @@ Theorem C01_feed_serialize :
          (marshal_meta : minfo -> list N) (parse_meta : list N -> option minfo)
          (le_len : leparams -> N -> N) (le_encode : leparams -> bool -> list N -> list N)
          (le_decode : leparams -> N -> list N -> option (list N))
-         (meta_ok : minfo -> bool) (le_ok : leparams -> bool),
+         (meta_ok : minfo -> bool) (le_ok : leparams -> N -> bool),
     (forall n p, length (seal n p) = (length p + tagLen)%nat) ->
     (forall n p, open n (seal n p) = Some p) ->
     (forall m, meta_ok m = true -> length (marshal_meta m) = metaLen) ->
     (forall m, meta_ok m = true -> parse_meta (marshal_meta m) = Some m) ->
-    (forall lp pb ct, le_ok lp = true -> length (le_encode lp pb ct) = N.to_nat (le_len lp (lenN ct))) ->
-    (forall lp pb ct, le_ok lp = true -> le_decode lp (lenN ct) (le_encode lp pb ct) = Some ct) ->
+    (forall lp pb n p, le_ok lp (lenN p) = true ->
+       length (le_encode lp pb (firstn (length p) (seal n p))) = N.to_nat (le_len lp (lenN p))) ->
+    (forall lp pb n p, le_ok lp (lenN p) = true ->
+       le_decode lp (lenN p) (le_encode lp pb (firstn (length p) (seal n p))) = Some (firstn (length p) (seal n p))) ->
     forall (segs : list segment) (n : list N),
       Forall (seg_ok le_len meta_ok le_ok) segs -> length n = nonceLen ->
       feed open parse_meta le_decode r_init (serialize seal marshal_meta le_len le_encode false n segs) =
@@ -64,13 +66,15 @@ Theorem C01_tcp_integrity :
          (marshal_meta : minfo -> list N) (parse_meta : list N -> option minfo)
          (le_len : leparams -> N -> N) (le_encode : leparams -> bool -> list N -> list N)
          (le_decode : leparams -> N -> list N -> option (list N))
-         (meta_ok : minfo -> bool) (le_ok : leparams -> bool),
+         (meta_ok : minfo -> bool) (le_ok : leparams -> N -> bool),
     (forall n p, length (seal n p) = (length p + tagLen)%nat) ->
     (forall n p, open n (seal n p) = Some p) ->
     (forall m, meta_ok m = true -> length (marshal_meta m) = metaLen) ->
     (forall m, meta_ok m = true -> parse_meta (marshal_meta m) = Some m) ->
-    (forall lp pb ct, le_ok lp = true -> length (le_encode lp pb ct) = N.to_nat (le_len lp (lenN ct))) ->
-    (forall lp pb ct, le_ok lp = true -> le_decode lp (lenN ct) (le_encode lp pb ct) = Some ct) ->
+    (forall lp pb n p, le_ok lp (lenN p) = true ->
+       length (le_encode lp pb (firstn (length p) (seal n p))) = N.to_nat (le_len lp (lenN p))) ->
+    (forall lp pb n p, le_ok lp (lenN p) = true ->
+       le_decode lp (lenN p) (le_encode lp pb (firstn (length p) (seal n p))) = Some (firstn (length p) (seal n p))) ->
     forall (client : bool) (ss : list sess) (wire : list segment) (n0 : list N) (chunks : list (list N)),
       Forall (sess_ok client) ss -> NoDup (map sess_id ss) ->
       interleave (map snd ss) wire -> Forall (seg_ok le_len meta_ok le_ok) wire -> length n0 = nonceLen ->
@@ -98,7 +102,7 @@ Theorem C01_tcp_tamper_prefix :
   forall (open : list N -> list N -> option (list N)) (marshal_meta : minfo -> list N)
          (parse_meta : list N -> option minfo) (le_len : leparams -> N -> N)
          (le_decode : leparams -> N -> list N -> option (list N))
-         (meta_ok : minfo -> bool) (le_ok : leparams -> bool),
+         (meta_ok : minfo -> bool) (le_ok : leparams -> N -> bool),
     (forall m, meta_ok m = true -> parse_meta (marshal_meta m) = Some m) ->
     forall (n0 : list N) (segs : list segment),
       (forall n c p, open n c = Some p -> In (n, p) (sealed marshal_meta le_len n0 segs)) ->
@@ -110,3 +114,58 @@ Theorem C01_tcp_tamper_prefix :
                    fst (feed open parse_meta le_decode (snd (feed open parse_meta le_decode r_init x)) y) = []).
 Proof. exact tamper_prefix. Qed.
 Print Assumptions C01_tcp_tamper_prefix.
+
+(* ---------------------------------------------------------------------------------------------------
+   The same statements with the codecs made concrete (model/TcpStreamWire.v): metadata marshal/unmarshal of
+   model/Wire.v (round trips: C09), low entropy codec of model/LowEntropy.v (round trip: C17).  The only
+   premises left are the AEAD ones: seal adds a 16 byte tag, open inverts seal, ciphertexts are byte strings.
+   Conditions of the concrete codecs are explicit in seg_ok (meta_ok_w now, le_ok_w): field values in the
+   range of their wire fields and 0 where the layout has no field; every segment stamped within one minute
+   of the receiver's clock [now], which is constant while the stream is parsed; low entropy segments with
+   parameters accepted by validateLowEntropyCodecParams, a 32 bit mask and 1..8191 chunks of payload. *)
+Theorem C01_feed_serialize_concrete :
+  forall (seal : list N -> list N -> list N) (open : list N -> list N -> option (list N)),
+    (forall n p, length (seal n p) = (length p + tagLen)%nat) ->
+    (forall n p, open n (seal n p) = Some p) ->
+    (forall n p, Forall (fun b => b < 256) (seal n p)) ->
+    forall (now : N) (segs : list segment) (n : list N),
+      Forall (seg_ok le_len_w (meta_ok_w now) le_ok_w) segs -> length n = nonceLen ->
+      feed open (parse_w now) le_decode_w r_init (serialize seal marshal_w le_len_w le_encode_w false n segs) =
+      (map (deliver le_len_w) segs, mkR [] (ser_next seal marshal_w le_len_w le_encode_w false n segs) false).
+Proof. exact feed_serialize_concrete. Qed.
+Print Assumptions C01_feed_serialize_concrete.
+
+Theorem C01_tcp_integrity_concrete :
+  forall (seal : list N -> list N -> list N) (open : list N -> list N -> option (list N)),
+    (forall n p, length (seal n p) = (length p + tagLen)%nat) ->
+    (forall n p, open n (seal n p) = Some p) ->
+    (forall n p, Forall (fun b => b < 256) (seal n p)) ->
+    forall (now : N) (client : bool) (ss : list sess) (wire : list segment) (n0 : list N) (chunks : list (list N)),
+      Forall (sess_ok client) ss -> NoDup (map sess_id ss) ->
+      interleave (map snd ss) wire -> Forall (seg_ok le_len_w (meta_ok_w now) le_ok_w) wire -> length n0 = nonceLen ->
+      concat chunks = serialize seal marshal_w le_len_w le_encode_w false n0 wire ->
+      r_failed (snd (feed_all open (parse_w now) le_decode_w r_init chunks)) = false /\
+      forall t, In t ss ->
+        let q := map snd (recv_queue (demux (sess_id t) (fst (feed_all open (parse_w now) le_decode_w r_init chunks)))) in
+        let w := written (snd (fst t)) in
+        concat q = w /\
+        (forall ks, concat (read_all ks q) = firstn (sum_nat ks) w) /\
+        (forall ks, (length w <= sum_nat ks)%nat -> concat (read_all ks q) = w) /\
+        (forall sched more, arrivals_of sched ++ more = q ->
+           exists rest, concat (run_reads (mkRd [] []) sched) ++ rest = w).
+Proof. exact tcp_integrity_concrete. Qed.
+Print Assumptions C01_tcp_integrity_concrete.
+
+(* tamper lemma with the concrete metadata layout; premises: INT-CTXT relative to the boxes the sender sealed
+   (open_sound in its strong form: only sealed boxes open, under their own nonce) and freshness of the nonces *)
+Theorem C01_tcp_tamper_prefix_concrete :
+  forall (open : list N -> list N -> option (list N)) (now : N) (n0 : list N) (segs : list segment),
+    (forall n c p, open n c = Some p -> In (n, p) (sealed marshal_w le_len_w n0 segs)) ->
+    NoDup (map fst (sealed marshal_w le_len_w n0 segs) ++ [nonce_after n0 segs]) ->
+    Forall (seg_ok le_len_w (meta_ok_w now) le_ok_w) segs ->
+    forall x x1, take nonceLen x = Some (n0, x1) ->
+      (exists k, fst (feed open (parse_w now) le_decode_w r_init x) = firstn k (map (deliver le_len_w) segs)) /\
+      (forall y, r_failed (snd (feed open (parse_w now) le_decode_w r_init x)) = true ->
+                 fst (feed open (parse_w now) le_decode_w (snd (feed open (parse_w now) le_decode_w r_init x)) y) = []).
+Proof. exact tamper_prefix_concrete. Qed.
+Print Assumptions C01_tcp_tamper_prefix_concrete.
